@@ -64,6 +64,8 @@ type HarnessResult struct {
 	Spurious   []*Violation
 	WitnessOK  int
 	WitnessBad []string
+	Cross      [4]int
+	Retried    int64
 }
 
 func runHarness(prog *Program, spec HarnessSpec, tier int, seed int64, workers int, trace bool) *HarnessResult {
@@ -97,7 +99,8 @@ func runHarness(prog *Program, spec HarnessSpec, tier int, seed int64, workers i
 	t0 := time.Now()
 	ex.Run()
 	res := &HarnessResult{Spec: spec, Stats: ex.stats, Solver: ex.solver, Samples: ex.samples, Notes: ex.notes, Opaque: ex.opaque,
-		WallS: time.Since(t0).Seconds(), AssertQ: ex.assertQueries, AssertUnsat: ex.assertUnsat}
+		WallS: time.Since(t0).Seconds(), AssertQ: ex.assertQueries, AssertUnsat: ex.assertUnsat,
+		Cross: [4]int{ex.crossDone, ex.crossAgree, ex.crossDisagree, ex.crossUnknown}, Retried: ex.retried}
 	if trace {
 		type kv struct {
 			k string
